@@ -435,8 +435,14 @@ def offset_text(rng):
         body = "P%dY" % rng.choice([1, 4])
     elif kind < 0.85:
         body = "P%dW" % rng.choice([1, 2])
-    else:
+    elif kind < 0.93:
         body = rng.choice(["P1DT12H", "PT90M", "P1Y2M3DT4H5M6S", "PT1M30S", "P2DT5,5H"])
+    else:
+        # the date-time-like alternative spelling of a duration, with either sign: the sign belongs to the
+        # command-line option, not to the duration syntax
+        body = rng.choice(["P0000-00-01T00", "P0000-00-00T01", "P0000-01-00", "P0001-00-00T00:00:00",
+                           "P00000001T000000", "P00000000T0100", "P0000-00-01T12:30", "P0000-001", "P0000001T06"])
+        sign = rng.choice(["-", "-", "", "+"])
     return sign + body
 
 
